@@ -8,7 +8,6 @@ type tagCycleValue struct {
 type tagCycleNode struct {
 	position *Token
 	args     []IEvaluator
-	idx      int
 	asName   string
 	silent   bool
 }
@@ -17,9 +16,20 @@ func (cv *tagCycleValue) String() string {
 	return cv.value.String()
 }
 
+// nextArg returns the argument this cycle tag is at within the current
+// execution and advances the position. The position is kept in the execution
+// context, not in the compiled node.
+func (node *tagCycleNode) nextArg(ctx *ExecutionContext) IEvaluator {
+	if ctx.tagState == nil {
+		ctx.tagState = make(map[any]any)
+	}
+	idx, _ := ctx.tagState[node].(int)
+	ctx.tagState[node] = idx + 1
+	return node.args[idx%len(node.args)]
+}
+
 func (node *tagCycleNode) Execute(ctx *ExecutionContext, writer TemplateWriter) *Error {
-	item := node.args[node.idx%len(node.args)]
-	node.idx++
+	item := node.nextArg(ctx)
 
 	val, err := item.Evaluate(ctx)
 	if err != nil {
@@ -31,8 +41,7 @@ func (node *tagCycleNode) Execute(ctx *ExecutionContext, writer TemplateWriter) 
 		// {% cycle cycleitem %}
 
 		// Update the cycle value with next value
-		item := t.node.args[t.node.idx%len(t.node.args)]
-		t.node.idx++
+		item := t.node.nextArg(ctx)
 
 		val, err := item.Evaluate(ctx)
 		if err != nil {
